@@ -442,7 +442,10 @@ Fixpoint ft_handle_impl (fuel : nat) (t : ftracker) (source : slot) (b : blockid
         match old with
         | Some (FFinalized h) => if h =? snd b then Some (ft_set_status t2 (fst b) (FFinalized h), ev1) else None
         | Some (FImplFinalized h) => if h =? snd b then Some (ft_set_status t2 (fst b) (FImplFinalized h), ev1) else None
-        | Some (FNotarized h) => if h =? snd b then continue_ t2 else None
+        (* current tree ("fix: allow a notarized block other than the implicitly finalized one in a slot"): the
+           pinned tree demanded h = snd b here ('consensus safety violation') although a slot may hold a
+           notarization certificate for one block and a notar-fallback certificate for another *)
+        | Some (FNotarized _) => continue_ t2
         | Some FFinalPendingNotar => continue_ t2
         | Some FImplSkipped => None
         | None => continue_ t2
@@ -504,7 +507,8 @@ Definition ft_mark_notarized (t : ftracker) (b : blockid) : ftres :=
     | None => Some (t1, fe_empty)
     | Some (FNotarized h) => if h =? snd b then Some (t1, fe_empty) else None
     | Some (FFinalized h) => if h =? snd b then Some (ft_set_status t1 (fst b) (FFinalized h), fe_empty) else None
-    | Some (FImplFinalized h) => if h =? snd b then Some (ft_set_status t1 (fst b) (FImplFinalized h), fe_empty) else None
+    (* current tree (same fix): a notarization certificate for another block than the implicitly finalized one is fine *)
+    | Some (FImplFinalized h) => Some (ft_set_status t1 (fst b) (FImplFinalized h), fe_empty)
     | Some FImplSkipped => Some (ft_set_status t1 (fst b) FImplSkipped, fe_empty)
     | Some FFinalPendingNotar =>
       ft_handle_finalized_block (ft_set_status t1 (fst b) (FFinalized (snd b))) b fe_empty
